@@ -42,7 +42,7 @@ NoRun == [run |-> 0]
 
 Init ==
   /\ l = 1 /\ scen = [id |-> ""] /\ ffBuf = NoStream /\ topInv = 0 /\ runlog = <<>> /\ prev = NoPrev /\ runinfo = NoRun
-  /\ pc = "idle" /\ cfg = [checks |-> 0, base |-> Zero, nofailfile |-> FALSE, failfile |-> "", expectFF |-> {}, deadline |-> FALSE]
+  /\ pc = "idle" /\ cfg = [checks |-> 0, base |-> Zero, nofailfile |-> FALSE, failfile |-> "", expectFF |-> {}, mustFF |-> {}, deadline |-> FALSE]
   /\ ffq = <<>> /\ ff = "" /\ pend = "" /\ valid = 0 /\ invalid = 0 /\ seed = Zero /\ cur = NoCur /\ flag = FALSE
   /\ e1 = NoErr /\ e2 = NoErr /\ buf = NoStream /\ best = NoStream /\ orig = NoStream /\ sErr = NoErr /\ cache = {}
   /\ shrinks = 0 /\ rep = NoRep /\ tbFailed = FALSE /\ tbFailNow = FALSE /\ viol = {}
@@ -73,7 +73,8 @@ Globbed(files) == { files[i].path : i \in { j \in 1..Len(files) : files[j].glob 
 RunBegin ==
   /\ Is("run.begin") /\ Adv
   /\ LET c == [checks |-> Ev.checks, base |-> Ev.seed.l, nofailfile |-> Ev.nofailfile, failfile |-> Ev.failfile, deadline |-> scen.deadline,
-               expectFF |-> Globbed(Ev.files) \cup (IF Ev.failfile = "" THEN {} ELSE {Ev.failfile})]
+               expectFF |-> Globbed(Ev.files) \cup (IF Ev.failfile = "" THEN {} ELSE {Ev.failfile}),
+               mustFF |-> { Ev.files[i].path : i \in { j \in 1..Len(Ev.files) : Ev.files[j].glob /\ Ev.files[j].ok } } \cup (IF Ev.failfile = "" THEN {} ELSE {Ev.failfile})]
      IN E_RunBegin(c)
   /\ viol' = viol
   /\ runinfo' = Ev /\ runlog' = <<>> /\ ffBuf' = NoStream /\ topInv' = 0
